@@ -448,7 +448,12 @@ def binop(self, op, va, vb, node):
             nf = F(0)
         if res is not None and res.is_const() and res.c.denominator == 1:
             return Const(int(res.c), t)
-        return IntV(res, t, nf)
+        sx = None
+        if res is None and isinstance(op, ast.Mult):
+            sa, sb = sym_of(ia), sym_of(ib)
+            if sa is not None and sb is not None:
+                sx = sp.expand(sa * sb)
+        return IntV(res, t, nf, sx=sx)
     na, nb = tonum(va), tonum(vb)
     if na is None or nb is None:
         if isinstance(va, TopV) or isinstance(vb, TopV):
@@ -591,28 +596,29 @@ def compare_vals(self, op, a, b, node):
             r = {ast.Lt: s < 0, ast.LtE: s <= 0, ast.Gt: s > 0, ast.GtE: s >= 0, ast.Eq: s == 0, ast.NotEq: s != 0}.get(type(op))
             if r is not None:
                 return Const(r, t)
-    before = len(self.conflicts)
-    if na.zero or nb.zero:
-        v = nb if na.zero else na
-        bad = False
-        if not v.zero and v.log is None:
-            for c in ('g', 'gy'):
-                if dzero(v.deg[c]) is False:
-                    self.conflict('compare', c, 'sign/zero test of a phase-carrying value (phase exponent %s)' % v.deg[c], node)
-                    bad = True
-        elif v.log is not None and any(dzero(v.log.get(c, F(0))) is False for c in COMPS):
-            self.conflict('compare', 's', 'log-type value compared with the literal 0', node)
-            bad = True
-        r = BoolV(bad, t)
-    else:
-        num_add(self, na, nb, node, 'compare')
-        r = BoolV(len(self.conflicts) > before and not self.in_assert, t)
-        if self.in_assert:
-            r.variant = False
-    r.shape = broadcast(na.shape, nb.shape) if hasattr(r, 'shape') else None
+    labels = frozenset()
+    if not self.in_assert:
+        cap = []
+        save = self._capture
+        self._capture = cap
+        try:
+            if na.zero or nb.zero:
+                v = nb if na.zero else na
+                if not v.zero and v.log is None:
+                    for c in ('g', 'gy'):
+                        if dzero(v.deg[c]) is False:
+                            self.conflict('compare', c, 'sign/zero test of a phase-carrying value (phase exponent %s)' % v.deg[c], node)
+                elif v.log is not None and any(dzero(v.log.get(c, F(0))) is False for c in COMPS):
+                    self.conflict('compare', 's', 'log-type value compared with the literal 0', node)
+            else:
+                num_add(self, na, nb, node, 'compare')
+        finally:
+            self._capture = save
+        for c in cap:
+            labels |= frozenset([self.new_variant(c.comp, 'comparison is not invariant: ' + c.msg, node)])
+    r = BoolV(bool(labels), t | labels)
     if na.is_array or nb.is_array:
-        m = Num(zero_deg(), broadcast(na.shape, nb.shape), False, taint=t)
-        m.variant = r.variant
+        m = Num(zero_deg(), broadcast(na.shape, nb.shape), False, taint=t | labels)
         m.role = 'mask'
         return m
     return r
@@ -1020,8 +1026,7 @@ def index_value(self, v, idx, node):
                 ni = tonum(ix)
                 if ni is not None and ni.role == 'mask':
                     out.append(None)
-                    if getattr(ni, 'variant', False):
-                        self.conflict('variant-branch', 's', 'selection by a mask that is not scale-invariant', node)
+                    t |= ni.taint
                 elif ni is not None and ni.shape is not None:
                     out.extend(ni.shape)
                 else:
@@ -1066,8 +1071,7 @@ def comprehension(self, n, st, elt):
             c = self.eval(cond, inner)
             if self.truth(c) is None:
                 count = None
-                if getattr(c, 'variant', False):
-                    self.conflict('variant-branch', 's', 'comprehension filter is not scale-invariant', cond)
+                self.pc = self.pc | taint_of(c)
     v = self.eval(elt, inner)
     st.heap = inner.heap
     self.pc = save_pc
